@@ -248,6 +248,10 @@ def find_input(unit, proof, ob, label, work):
         rc, out = native.run_driver(os.path.join(HERE, 'replay_success_unverified.cpp'), [sc])
         return {'inputs': {'driver': 'units/C06/replay_success_unverified.cpp', 'args': [sc], 'meaning': 'scripted peer that never computes a valid ServerSignature'},
                 'native_output': out, 'reproduced': rc == 1}
+    if proof.id.startswith('scram_respond.step1') and ('iteration' in label or 'refused' in label):
+        rc, out = native.run_driver(os.path.join(HERE, 'replay_scram_iterations.cpp'), [])
+        return {'inputs': {'driver': 'units/C06/replay_scram_iterations.cpp', 'args': [], 'meaning': 'server-first messages with i = 4096, 1, 0, -7, abc, missing'},
+                'native_output': out, 'reproduced': rc == 1}
     if proof.id.startswith('digest_respond.step2'):
         rc, out = native.run_driver(os.path.join(HERE, 'replay_digest_rspauth.cpp'), [])
         return {'inputs': {'driver': 'units/C06/replay_digest_rspauth.cpp', 'args': [], 'meaning': 'final DIGEST-MD5 challenges: correct / wrong / missing rspauth, empty'},
